@@ -107,7 +107,8 @@ CLAIMS = {
 }
 
 # properties whose harness files are complete and green on the unchanged tree
-READY = ["C02", "C04", "C05", "C06", "C07", "C08", "C09", "C18", "C19", "C20"]
+READY = ["C01", "C02", "C03", "C04", "C05", "C06", "C07", "C08", "C09", "C10", "C11", "C12", "C13", "C14", "C15", "C16",
+         "C18", "C19", "C20"]
 
 NA = {
     "C17": "Settings round trip goes through ruamel.yaml text emission/parsing and voluptuous coercion closures "
